@@ -164,8 +164,11 @@ class RTDCWriter:
         # set event count
         feats = sorted(self.h5file.get("events", {}).keys())
         if feats:
-            self.h5file.attrs["experiment:event count"] = len(
-                self.h5file["events"][feats[0]])
+            obj = self.h5file["events"][feats[0]]
+            if feats[0] == "trace" and len(obj):
+                # "trace" is a group holding one 2D array per trace name
+                obj = obj[sorted(obj.keys())[0]]
+            self.h5file.attrs["experiment:event count"] = len(obj)
         else:
             raise ValueError(f"No features in '{self.path}'!")
 
